@@ -339,16 +339,14 @@ static void tostr(const ContentPtr& c, std::ostream& out, int depth) {
   if (NumpyArray* raw = dynamic_cast<NumpyArray*>(c.get())) {
     if (raw->isscalar()) { scalar_tostr(raw, out); return; }
   }
-  // an array whose list level carries __array__ = "string"/"bytestring" is an array of strings
-  bool isstr = c.get()->parameter_equals("__array__", "\"string\"");
-  bool isbytes = c.get()->parameter_equals("__array__", "\"bytestring\"");
+  // ak.to_list: an array of characters (__array__ = "char" / "byte") is one string / bytestring
+  if (c.get()->parameter_equals("__array__", "\"char\"")) { tostr_string(c, out, false); return; }
+  if (c.get()->parameter_equals("__array__", "\"byte\"")) { tostr_string(c, out, true); return; }
   int64_t n = c.get()->length();
   out << "[";
   for (int64_t i = 0; i < n; i++) {
     if (i) out << ",";
-    ContentPtr item = c.get()->getitem_at_nowrap(i);
-    if ((isstr || isbytes) && dynamic_cast<None*>(item.get()) == nullptr) tostr_string(item, out, isbytes);
-    else tostr(item, out, depth + 1);
+    tostr(c.get()->getitem_at_nowrap(i), out, depth + 1);
   }
   out << "]";
 }
@@ -648,6 +646,35 @@ static std::string run_op(const std::string& op, Toks& tk, ContentPtr& result) {
     ContentPtrVec others;
     for (int64_t i = 1; i < k; i++) others.push_back(input_layout(tk));
     result = x.get()->mergemany(others);
+  }
+  else if (op == "concat") {
+    // ak.concatenate(axis=0) as src/awkward/operations/structure.py composes it from the layout methods
+    bool merge = tk.i64() != 0;
+    bool mergebool = tk.i64() != 0;
+    int64_t k = tk.i64();
+    ContentPtrVec contents;
+    for (int64_t i = 0; i < k; i++) contents.push_back(input_layout(tk));
+    ContentPtrVec batch;
+    batch.push_back(contents[0]);
+    for (int64_t i = 1; i < k; i++) {
+      if (batch.back().get()->mergeable(contents[(size_t)i], mergebool)) {
+        batch.push_back(contents[(size_t)i]);
+      }
+      else {
+        ContentPtrVec rest(batch.begin() + 1, batch.end());
+        ContentPtr collapsed = batch[0].get()->mergemany(rest);
+        batch.clear();
+        batch.push_back(collapsed.get()->merge_as_union(contents[(size_t)i]));
+      }
+    }
+    ContentPtrVec rest(batch.begin() + 1, batch.end());
+    ContentPtr out = batch[0].get()->mergemany(rest);
+    if (UnionArray8_32* r = dynamic_cast<UnionArray8_32*>(out.get())) out = r->simplify_uniontype(merge, mergebool);
+    else if (UnionArray8_U32* r = dynamic_cast<UnionArray8_U32*>(out.get())) out = r->simplify_uniontype(merge, mergebool);
+    else if (UnionArray8_64* r = dynamic_cast<UnionArray8_64*>(out.get())) out = r->simplify_uniontype(merge, mergebool);
+    result = out;
+    g_extra = out.get()->classname();
+    if (NumpyArray* r = dynamic_cast<NumpyArray*>(out.get())) g_extra += std::string(":") + util::dtype_to_name(r->dtype());
   }
   else if (op == "merge") {
     ContentPtr x = input_layout(tk);
